@@ -447,7 +447,8 @@ Proof.
         -- rewrite Hk, skipn_app_le by auto.
            rewrite <- (firstn_all (e_pat e)), Hl. rewrite (firstn_S_nth _ _ _ cstar) by (fold rel; lia).
            rewrite pat_matches_app by (rewrite firstn_length, skipn_length; fold rel; lia).
-           rewrite (Hinv Hsg e He). cbn. rewrite Hk, last_name_snoc in Hm. unfold clause_at in Hm. now rewrite Hm.
+           pose proof (Hinv Hsg e He) as Hi. fold rel in Hi. rewrite Hi.
+           cbn. rewrite Hk, last_name_snoc in Hm. unfold clause_at in Hm. now rewrite Hm.
         -- unfold dsel. apply orb_true_iff in Hf as [Hf|Hf].
            ++ apply negb_true_iff in Hf. rewrite Hf. unfold filter_ok. now destruct (e_flt e).
            ++ apply negb_true_iff in Hf. unfold has_filter in Hf. destruct (e_flt e); [discriminate|reflexivity].
@@ -495,3 +496,47 @@ Proof.
 Qed.
 
 End Spec.
+
+(* ------------------------------------------------------------------ DoTraversal as a whole *)
+
+Section Top.
+Context {M : MatchOps} {L : MatchLaws M}.
+
+(* the nodes DoTraversal(cb, This, root, useFilters, ...) calls back on, in order *)
+Definition vlist (t : tree) (m : matcher) (root : path) (uf : bool) : list node :=
+  vtrav t m (length root) uf true (S (max_clauses m)) root.
+
+Theorem vlist_spec : forall t m root uf n, wf_tree t -> wf_groups (m_groups m) ->
+  In n (vlist t m root uf) <->
+  In n t /\ (exists r, r <> [] /\ n_path n = root ++ r) /\ matches_node m (n_path n) (dsel uf n) (length root) = true.
+Proof.
+  intros t m root uf n Ht Hm. unfold vlist. apply vtrav_spec_aux; auto; [lia|].
+  intros _ e _. rewrite Nat.sub_diag, skipn_all. reflexivity.
+Qed.
+
+Theorem vlist_nodup : forall t m root uf, wf_tree t -> NoDup (vlist t m root uf).
+Proof. intros. unfold vlist. now apply vtrav_nodup. Qed.
+
+(* a callback that always goes on: the traversal is a fold over the visit list *)
+Theorem do_traversal_continue : forall (A : Type) (f : A -> node -> A) t m root uf acc,
+  do_traversal (continue_cb f) t m root uf true acc = fold_left f (vlist t m root uf) acc.
+Proof.
+  intros A f t m root uf acc. unfold do_traversal, vlist.
+  assert (H : trav A (continue_cb f) t m (length root) uf true (S (max_clauses m)) root acc
+              = (fold_left (g' A f (fun _ => false)) (vtrav t m (length root) uf true (S (max_clauses m)) root) acc,
+                 Z.of_nat (length root))).
+  { apply (trav_fold A (continue_cb f) f (fun _ => false) 0 (fun _ => True)); auto; try discriminate.
+    intros acc0 n _ _. exists (Z.of_nat (depth n)). unfold continue_cb. split; [auto|split; [lia|auto]]. }
+  rewrite H. reflexivity.
+Qed.
+
+(* the visit list of the model is that list *)
+Theorem visits_vlist : forall t m root uf, visits t m root uf true = vlist t m root uf.
+Proof.
+  intros t m root uf. unfold visits. rewrite do_traversal_continue.
+  assert (H : forall l acc, fold_left (fun (a : list node) n => n :: a) l acc = rev l ++ acc).
+  { induction l as [|x l IH]; intros acc; cbn; auto. rewrite IH, <- app_assoc. reflexivity. }
+  rewrite H, app_nil_r. apply rev_involutive.
+Qed.
+
+End Top.
